@@ -410,7 +410,7 @@ def fault_study(ctx, oracle):
         evs = '[' + '; '.join('(TickFault %d)' % e[1] if e[0] == 'tickf' else '(Ev %s)' % ev_term(e)
                               for e in r['events']) + ']'
         exprs.append('obs_xtrace %s %s' % (cfg_term(r['graph']), evs))
-    nmis, first = 0, None
+    nmis, first, outside = 0, None, 0
     try:
         vals = ctx.coq_eval(['DV.Model.Sched', 'DV.Model.SchedObs', 'DV.Model.SchedFault'], exprs,
                             z_scope=False, chunk=40)
